@@ -1,12 +1,6 @@
-mod alloc;
-mod ctx;
-mod driver;
-mod heapcheck;
-mod props;
-mod session;
-mod sut;
 
-use ctx::{Ctx, Outcome, Tier};
+use mwv::ctx::{Ctx, Outcome, Tier};
+use mwv::{alloc, driver, props, session, sut};
 
 #[global_allocator]
 static GLOBAL: alloc::Counting = alloc::Counting;
